@@ -235,6 +235,9 @@ type Prop[C any] struct {
 	// change that makes many more inputs of a class fail is still a regression: exceeding the bound (set
 	// several times above the rate measured on the unchanged tree) is reported as a violation.
 	MaxRate map[string]float64
+	// OtherFailure, if set, is asked about the error an open finding's input produces when it is replayed: true
+	// means the input fails in a way the finding does not describe, which is reported as a violation.
+	OtherFailure func(findingID string, err error) bool
 }
 
 // SafeCheck runs p.Check converting a panic into an error.
@@ -476,6 +479,11 @@ func runKnown[C any](t *testing.T, p Prop[C]) {
 				t.Errorf("fixed finding %s fails again: %v", f.ID, cerr)
 			}
 		default:
+			if cerr != nil && p.OtherFailure != nil && p.OtherFailure(f.ID, cerr) {
+				recordViolation(p.Sub, "input of finding "+f.ID+" fails differently", c, cerr)
+				t.Errorf("the input of known finding %s fails in a way the finding does not describe: %v", f.ID, cerr)
+				continue
+			}
 			kr := knownResult{ID: f.ID, Sub: p.Sub, What: f.What, Reproduced: cerr != nil}
 			if cerr != nil {
 				kr.Detail = firstLines(cerr.Error(), 2)
